@@ -278,6 +278,14 @@ def s4(rep, w):
     search with an ordering comparison on the slot address and be able to link the new node behind a predecessor."""
     r = rep.rule('S4', 'the open-upvalue list stays address-ordered: close_upvalues relies on it, capture_upvalue inserts in order', floor=3)
     cu = w.require_fn('yarel::object::ObjFiber::close_upvalues', 'C06')
+    # which representation? a chain through a link field of ObjUpvalue, or a vector on the fiber
+    c_ = w.yarel
+    link = [fd['n'] for fd in c_.adts['yarel::object::ObjUpvalue']['variants'][0]['fields'] if 'object::ObjUpvalue>' in c_.tstr(fd['t'])]
+    vecf = [fd['n'] for fd in c_.adts['yarel::object::ObjFiber']['variants'][0]['fields'] if c_.tstr(fd['t']).startswith('std::vec::Vec<') and 'object::ObjUpvalue>' in c_.tstr(fd['t'])]
+    if not link and vecf:
+        return s4_vec(r, w, cu, vecf[0])
+    if not link:
+        raise Broken('C06', 'anchor', 'open upvalues: neither a link field on ObjUpvalue nor a vector on ObjFiber')
     # does close_upvalues stop early (loop exit decided by the predicate on the head entry)?
     early = False
     for bi, t in cu.calls():
@@ -335,6 +343,54 @@ def s4(rep, w):
         r.check(pred_link, 'capture_upvalue can link a new upvalue behind a predecessor (insertion in the middle)',
                 'capture_upvalue only ever links at the head of the list, so the list is in capture order, not address order, while close_upvalues '
                 'stops at the first entry below its threshold: a later-declared variable captured first is never closed', cap.loc())
+    else:
+        r.ok('close_upvalues examines every entry (no ordering assumption)')
+        r.ok('ordering of insertions irrelevant')
+
+
+def s4_vec(r, w, cu, field):
+    """the same obligation when the open upvalues are a vector on the fiber: if close_upvalues stops at the first entry (from the end)
+    that is below its threshold, the vector must be sorted by slot address, so capture_upvalue has to insert at a position found by an
+    ordering search (or sort after pushing); only the two of them change the vector"""
+    c = w.yarel
+    cap = w.require_fn(VM + 'capture_upvalue', 'C06')
+    early = False
+    for bi, t in cu.calls():
+        if callee_name(t) == 'yarel::object::ObjUpvalue::is_open_with_pred':
+            b = t.get('to')
+            for _ in range(8):
+                tt = cu.blocks[b]['t']
+                if tt['t'] == 'switch':
+                    early = True
+                    break
+                b = tt.get('to') if tt['t'] in ('goto', 'drop', 'call') else None
+                if b is None:
+                    break
+    MUT = ('push', 'insert', 'pop', 'remove', 'truncate', 'clear', 'retain', 'swap_remove', 'drain', 'sort_by', 'sort_by_key', 'sort_unstable_by', 'extend')
+    writers = {}
+    for f in c.fns.values():
+        fo = None
+        for bi, t in f.calls():
+            n = strip_generics(callee_name(t) or '')
+            m = n.rsplit('::', 1)[-1]
+            if (n.startswith('std::vec::Vec::') or n.startswith('core::slice::')) and m in MUT and t['args']:
+                if fo is None:
+                    fo = origins(f)
+                if field in operand_fields(f, fo, t['args'][0]):
+                    writers.setdefault(f.path, []).append(m)
+    allowed = {cap.path, cu.path, VM + 'reset_stack'}
+    r.check(set(writers) <= allowed and cap.path in writers, 'the open-upvalue vector is changed only by capture_upvalue and close_upvalues',
+            'the open-upvalue vector is also changed in %s' % sorted(set(writers) - allowed))
+    ops = writers.get(cap.path, [])
+    bodies = [cap] + [g for g in w.fns.values() if g.kind == 'Closure' and g.parent == cap.path]
+    search = any(strip_generics(callee_name(t) or '').rsplit('::', 1)[-1] in ('partition_point', 'binary_search_by', 'binary_search_by_key', 'position', 'rposition')
+                 for g in bodies for _, t in g.calls())
+    ordered = ('insert' in ops and search) or ('push' in ops and any(x.startswith('sort') for x in ops))
+    if early:
+        r.check(ordered, 'capture_upvalue inserts at a position found by an ordering search', 'close_upvalues stops at the first entry below its threshold (it assumes the vector is sorted by '
+                'address) but capture_upvalue adds entries with %s and no ordering search: an upvalue stored out of order is skipped when its scope ends' % sorted(set(ops)), cap.loc())
+        pops = writers.get(cu.path, [])
+        r.check('pop' in pops or 'truncate' in pops or 'drain' in pops, 'close_upvalues removes the entries it closes', 'close_upvalues closes upvalues but leaves them in the vector', cu.loc())
     else:
         r.ok('close_upvalues examines every entry (no ordering assumption)')
         r.ok('ordering of insertions irrelevant')
